@@ -101,6 +101,9 @@ Actions(n) ==
     \cup {[a |-> "swap_E", i |-> i, j |-> j] : i \in 1..n, j \in 1..n}
     \cup {[a |-> "swap_F", i |-> i, j |-> j] : i \in 1..n, j \in 1..n}
     \cup {[a |-> "splice_tag"], [a |-> "splice_traps"], [a |-> "flip_flavour"]}
+    \* the framing of the serialized form: the announced number of traps / of entries rewritten
+    \cup {[a |-> "count_traps", d |-> d] : d \in {"up", "down"}}
+    \cup {[a |-> "count_entries", d |-> d] : d \in {"up", "down", "far"}}
     \cup {[a |-> "splice_entry", i |-> i] : i \in 1..n}
     \cup {[a |-> "splice_E", i |-> i] : i \in 1..n}
     \cup {[a |-> "splice_F", i |-> i] : i \in 1..n}
@@ -130,6 +133,16 @@ Act(x, enc, other) ==
       [] x.a = "splice_entry" -> [enc EXCEPT !.es[x.i] = other.es[x.i], !.fs[x.i] = other.fs[x.i]]
       [] x.a = "splice_E" -> [enc EXCEPT !.es[x.i] = other.es[x.i]]
       [] x.a = "splice_F" -> [enc EXCEPT !.fs[x.i] = other.fs[x.i]]
+      \* one more trap is read out of what follows: everything after it is misaligned
+      [] x.a = "count_traps" -> IF x.d = "up"
+                                THEN [enc EXCEPT !.c = @ \o <<Junk(List(@))>>,
+                                                 !.es = [j \in 1..Len(@) |-> Junk(@[j])], !.fs = [j \in 1..Len(@) |-> Junk(@[j])]]
+                                ELSE [enc EXCEPT !.c = SubSeq(@, 1, Len(@) - 1),
+                                                 !.es = [j \in 1..Len(@) |-> Junk(@[j])], !.fs = [j \in 1..Len(@) |-> Junk(@[j])]]
+      \* more entries announced than present (read beyond the end), or fewer (trailing bytes / a shorter list)
+      [] x.a = "count_entries" -> IF x.d = "down"
+                                  THEN [enc EXCEPT !.es = SubSeq(@, 1, Len(@) - 1), !.fs = SubSeq(@, 1, Len(@) - 1)]
+                                  ELSE [enc EXCEPT !.es = @ \o <<Junk(<<x.d>>)>>, !.fs = @ \o <<Junk(<<x.d>>)>>]
       [] x.a = "flip_flavour" -> [enc EXCEPT !.h = ~@, !.es = [j \in 1..Len(@) |-> Junk(@[j])],
                                              !.fs = [j \in 1..Len(@) |-> Junk(@[j])]]
 
@@ -142,7 +155,9 @@ E2(o) == Enc(2, o.n, o.hyb)
 Seqs(o) == {<<x>> : x \in {y \in Actions(o.n) : Ok(y, E1(o))}}
            \* (flipping the flavour flag twice restores the bytes: excluded)
            \cup {p \in {<<x, y>> : x \in {z \in Actions(o.n) : Ok(z, E1(o))}, y \in Actions(o.n)} :
-                     ~(p[1].a = "flip_flavour" /\ p[2].a = "flip_flavour")}
+                     /\ ~(p[1].a = "flip_flavour" /\ p[2].a = "flip_flavour")
+                     \* (two rewrites of the same count byte: the last one wins in the bytes)
+                     /\ ~(p[1].a = p[2].a /\ p[1].a \in {"count_traps", "count_entries"})}
 Result(o, sq) ==
     LET e1 == Act(sq[1], E1(o), E2(o))
     IN IF Len(sq) = 1 THEN e1
